@@ -105,4 +105,195 @@ theorem response101_lines (accept sub : Bytes) (compress : Bool)
       [[], []] := by
   first | exact RequestLogic.response101_lines .. | (apply RequestLogic.response101_lines <;> assumption)
 
+/-! ### non-vacuity -/
+section NonVacuity
+set_option linter.defProp false
+
+/-- the opening handshake of RFC 6455 §1.3 as a browser sends it: GET, Connection: keep-alive, Upgrade;
+    Upgrade: websocket; version 13; the sample key; Origin = the site itself; two subprotocols and a
+    permessage-deflate offer (r.Header has canonical keys) -/
+def witReq : Req :=
+  { method := strBytes "GET", host := strBytes "server.example.com",
+    hdr := [(strBytes "Connection", [strBytes "keep-alive, Upgrade"]),
+            (strBytes "Upgrade", [strBytes "websocket"]),
+            (strBytes "Sec-Websocket-Version", [strBytes "13"]),
+            (strBytes "Sec-Websocket-Key", [strBytes "dGhlIHNhbXBsZSBub25jZQ=="]),
+            (strBytes "Origin", [strBytes "http://server.example.com"]),
+            (strBytes "Sec-Websocket-Protocol", [strBytes "superchat, chat"]),
+            (strBytes "Sec-Websocket-Extensions", [strBytes "permessage-deflate; client_max_window_bits"])] }
+
+/-- an Upgrader with two subprotocols, compression enabled, default origin policy, 4096-byte buffers -/
+def witU : UCfg :=
+  { subprotocols := some [strBytes "chat", strBytes "superchat"], enableCompression := true, checkOrigin := none,
+    readBufferSize := 4096, writeBufferSize := 4096, pool := false, handshakeTimeout := true }
+
+/-- url.Parse(origin).Host of `witReq` -/
+def witOh : Option Bytes := some (strBytes "server.example.com")
+
+/-- a successful Hijack with net/http's 4096-byte bufio pair, nothing buffered -/
+def witHj : Hijack := { ok := true, brSize := 4096, buffered := 0, availLen := 4096 }
+
+/-- the Accept value of the RFC sample key -/
+def witAccept : Bytes := strBytes "s3pPLMBiTxaQ9kYGzzhZRbK+xOo="
+
+/-- witness for `upgrade_iff`: the eight conditions of the chain hold for the RFC sample request -/
+def witReq_chain :
+    tokenListContainsValue (witReq.values "Connection") (strBytes "upgrade") = true ∧
+    tokenListContainsValue (witReq.values "Upgrade") (strBytes "websocket") = true ∧
+    witReq.method = strBytes "GET" ∧
+    tokenListContainsValue (witReq.values "Sec-Websocket-Version") (strBytes "13") = true ∧
+    RespHdr.has none "Sec-Websocket-Extensions" = false ∧
+    (match witU.checkOrigin with | some b => b | none => checkSameOrigin witReq witOh) = true ∧
+    isValidChallengeKey (witReq.get "Sec-Websocket-Key") = true ∧
+    witHj.ok = true := by
+  refine ⟨?_, ?_, ?_, ?_, ?_, ?_, ?_, ?_⟩ <;> decide +kernel
+
+/-- non-vacuity of `upgrade_iff` (right to left): the right-hand side is satisfiable by a realistic
+    request, and hence `upgrade` = .ok -/
+def witReq_ok : ∃ a, upgrade witU witReq none witOh witHj = .ok a :=
+  (upgrade_iff witU witReq none witOh witHj).2 witReq_chain
+/-- non-vacuity of `upgrade_iff`: the existence statement itself -/
+example : ∃ a, upgrade witU witReq none witOh witHj = .ok a := witReq_ok
+
+/-- non-vacuity of `upgrade_iff`, concretely: `upgrade` answers the RFC sample request with the 101
+    of the RFC (Accept s3pPLMBiTxaQ9kYGzzhZRbK+xOo=, via `accept_digest_rfc_vector`), subprotocol
+    "superchat" and the permessage-deflate announcement -/
+def witReq_ok_bytes :
+    ∃ a, upgrade witU witReq none witOh witHj = .ok (response101 witAccept (strBytes "superchat") true none, a) := by
+  have hk : witReq.get "Sec-Websocket-Key" = strBytes "dGhlIHNhbXBsZSBub25jZQ==" := by decide +kernel
+  have hs : selectSubprotocol witU witReq none = strBytes "superchat" := by decide +kernel
+  have hc : (witU.enableCompression &&
+      (parseExtensions (witReq.values "Sec-Websocket-Extensions")).any (fun e => e.name == strBytes "permessage-deflate")) = true := by
+    decide +kernel
+  unfold upgrade
+  rw [if_neg (by decide +kernel), if_neg (by decide +kernel), if_neg (by decide +kernel), if_neg (by decide +kernel),
+      if_neg (by decide +kernel), if_neg (by decide +kernel), if_neg (by decide +kernel)]
+  simp only [hk, hs, hc, accept_digest_rfc_vector]
+  rw [if_neg (by decide +kernel)]
+  exact ⟨_, rfl⟩
+
+/-- an `Except` value that evaluates to `.error e` is `.error e` (lets the kernel run `upgrade` up to the rejection) -/
+def witErrOf {α : Type} (x : Except Reject α) (e : Reject)
+    (h : (match x with | .error e' => decide (e' = e) | .ok _ => false) = true) : x = .error e := by
+  cases x with
+  | error e' => simpa using h
+  | ok a => simp at h
+
+/-- the same handshake sent by a page of another site -/
+def witReqCross : Req :=
+  { witReq with hdr := [(strBytes "Connection", [strBytes "keep-alive, Upgrade"]),
+            (strBytes "Upgrade", [strBytes "websocket"]),
+            (strBytes "Sec-Websocket-Version", [strBytes "13"]),
+            (strBytes "Sec-Websocket-Key", [strBytes "dGhlIHNhbXBsZSBub25jZQ=="]),
+            (strBytes "Origin", [strBytes "https://evil.example.org"])] }
+
+/-- witness for `reject_status`: the cross-origin request is rejected for its origin -/
+def witReqCross_rejected : upgrade witU witReqCross none (some (strBytes "evil.example.org")) witHj = .error .origin :=
+  witErrOf _ _ (by decide +kernel)
+/-- non-vacuity of `reject_status` (403): the hypothesis holds with `e = .origin`, and the theorem applies -/
+example : Reject.origin.status = 403 ∧
+    (match witU.checkOrigin with | some b => b | none => checkSameOrigin witReqCross (some (strBytes "evil.example.org"))) = false :=
+  have h := reject_status witU witReqCross none (some (strBytes "evil.example.org")) witHj .origin witReqCross_rejected
+  ⟨h.1.2 rfl, h.2.2.2 rfl⟩
+
+/-- an HTTP/1.1 upgrade attempt to another protocol: Connection: Upgrade but Upgrade: h2c -/
+def witReqH2c : Req :=
+  { method := strBytes "GET", host := strBytes "server.example.com",
+    hdr := [(strBytes "Connection", [strBytes "Upgrade, HTTP2-Settings"]),
+            (strBytes "Upgrade", [strBytes "h2c"]),
+            (strBytes "Http2-Settings", [strBytes "AAMAAABkAAQAAP__"])] }
+
+/-- witness for `reject_status`: the h2c request is rejected for the missing websocket token -/
+def witReqH2c_rejected : upgrade witU witReqH2c none none witHj = .error .noUpgradeWebsocket :=
+  witErrOf _ _ (by decide +kernel)
+/-- non-vacuity of `reject_status` (426): the hypothesis holds with `e = .noUpgradeWebsocket`, and the theorem applies -/
+example : Reject.noUpgradeWebsocket.status = 426 ∧
+    tokenListContainsValue (witReqH2c.values "Connection") (strBytes "upgrade") = true ∧
+    tokenListContainsValue (witReqH2c.values "Upgrade") (strBytes "websocket") = false :=
+  have h := reject_status witU witReqH2c none none witHj .noUpgradeWebsocket witReqH2c_rejected
+  ⟨h.2.1.2 rfl, h.2.2.1 rfl⟩
+
+/-- non-vacuity of `deflate_announced_iff`: the hypothesis `upgrade … = .ok (b, a)` is satisfiable (by
+    `witReq_ok`), and for that result the theorem says compression is on: the server enabled it and the
+    client offered permessage-deflate -/
+example : ∃ b a, upgrade witU witReq none witOh witHj = .ok (b, a) ∧ a.compress = true := by
+  obtain ⟨⟨b, a⟩, h⟩ := witReq_ok
+  refine ⟨b, a, h, ?_⟩
+  rw [deflate_announced_iff witU witReq none witOh witHj b a h]
+  decide +kernel
+
+/-- non-vacuity of `deflate_announced_iff` (negative side): same request, compression not enabled on the server -/
+example : ∃ b a, upgrade { witU with enableCompression := false } witReq none witOh witHj = .ok (b, a) ∧ a.compress = false := by
+  obtain ⟨⟨b, a⟩, h⟩ := (upgrade_iff { witU with enableCompression := false } witReq none witOh witHj).2 witReq_chain
+  refine ⟨b, a, h, ?_⟩
+  rw [deflate_announced_iff _ witReq none witOh witHj b a h]
+  decide +kernel
+
+/-- witness for `subprotocol_offered_and_supported`: the server supports ["chat", "superchat"], the
+    client offers "superchat, chat"; the client's first choice is selected -/
+def witSub_selected : selectSubprotocol witU witReq none = strBytes "superchat" := by decide +kernel
+/-- non-vacuity of `subprotocol_offered_and_supported`: both hypotheses hold, and the theorem applies -/
+example : selectSubprotocol witU witReq none ∈ [strBytes "chat", strBytes "superchat"] ∧
+    selectSubprotocol witU witReq none ∈ subprotocols (witReq.get "Sec-Websocket-Protocol") :=
+  subprotocol_offered_and_supported witU witReq none [strBytes "chat", strBytes "superchat"] rfl
+    (by rw [witSub_selected]; decide +kernel)
+
+/-- witness for `no_injection` / `response101_lines`: no CR in the Accept value -/
+def witAccept_noCR : ∀ b ∈ witAccept, b ≠ 13 := by decide +kernel
+
+/-- an application response header with two entries (three values) -/
+def witRh : RespHdr :=
+  some [(strBytes "Set-Cookie", [strBytes "session=abc123; HttpOnly", strBytes "theme=dark"]),
+        (strBytes "X-Request-Id", [strBytes "42"])]
+/-- witness for `no_injection`: no CR in the header names -/
+def witRh_noCR : ∀ l, witRh = some l → ∀ p ∈ l, ∀ b ∈ p.1, b ≠ 13 := by
+  intro l h
+  cases h
+  decide +kernel
+
+/-- non-vacuity of `no_injection`: Accept of the RFC sample, subprotocol "superchat", compression on,
+    two application headers with three values: 4 + 1 + 1 + 3 + 2 lines -/
+example : (splitCRLF (response101 witAccept (strBytes "superchat") true witRh) []).length =
+    4 + (if (strBytes "superchat").isEmpty then 0 else 1) + (if true then 1 else 0) + rhLines witRh + 2 :=
+  no_injection witAccept (strBytes "superchat") true witRh witAccept_noCR witRh_noCR
+/-- an application header value and a subprotocol that try to inject a line -/
+def witRhEvil : RespHdr := some [(strBytes "X-App", [strBytes "a\r\nSet-Cookie: evil=1"])]
+/-- witness for `no_injection`: no CR in the header name of `witRhEvil` (the value is full of them) -/
+def witRhEvil_noCR : ∀ l, witRhEvil = some l → ∀ p ∈ l, ∀ b ∈ p.1, b ≠ 13 := by
+  intro l h
+  cases h
+  decide +kernel
+/-- non-vacuity of `no_injection` with values that try to inject: a header value with CR LF and a
+    subprotocol with CR LF satisfy the hypotheses and still give the expected number of lines -/
+example : (splitCRLF (response101 witAccept (strBytes "chat\r\nX-Evil: 1") false witRhEvil) []).length =
+    4 + (if (strBytes "chat\r\nX-Evil: 1").isEmpty then 0 else 1) + (if false then 1 else 0) + rhLines witRhEvil + 2 :=
+  no_injection witAccept _ false witRhEvil witAccept_noCR witRhEvil_noCR
+
+/-- witness for `contains_sound`: a browser's Connection header contains the token "upgrade" -/
+def witLine_contains : lineContains (strBytes "keep-alive, Upgrade") (strBytes "upgrade") = true := by decide +kernel
+/-- non-vacuity of `contains_sound`: the hypothesis holds for "keep-alive, Upgrade", and the theorem applies -/
+example : ∃ e ∈ elements (strBytes "keep-alive, Upgrade"), e ≠ [] ∧ (∀ b ∈ e, isTokenOctet b = true) ∧
+    equalASCIIFold e (strBytes "upgrade") = true :=
+  contains_sound _ _ witLine_contains
+
+/-- witness for `contains_complete`: "keep-alive, Upgrade" is a well-formed 1#token list -/
+def witLine_wf : ∀ e ∈ elements (strBytes "keep-alive, Upgrade"), e ≠ [] ∧ ∀ b ∈ e, isTokenOctet b = true := by decide +kernel
+/-- witness for `contains_complete`: its second element equals "upgrade" under ASCII folding -/
+def witLine_elem : ∃ e ∈ elements (strBytes "keep-alive, Upgrade"), equalASCIIFold e (strBytes "upgrade") = true :=
+  ⟨strBytes "Upgrade", by decide +kernel, by decide +kernel⟩
+/-- non-vacuity of `contains_complete`: both hypotheses hold for "keep-alive, Upgrade" / "upgrade", and the theorem applies -/
+example : lineContains (strBytes "keep-alive, Upgrade") (strBytes "upgrade") = true :=
+  contains_complete _ _ witLine_wf witLine_elem
+
+/-- non-vacuity of `response101_lines`: the 101 for the RFC sample with subprotocol and compression -/
+example : splitCRLF (response101 witAccept (strBytes "superchat") true none) [] =
+      [strBytes "HTTP/1.1 101 Switching Protocols", strBytes "Upgrade: websocket", strBytes "Connection: Upgrade",
+       strBytes "Sec-WebSocket-Accept: " ++ witAccept] ++
+      (if (strBytes "superchat").isEmpty then [] else [strBytes "Sec-WebSocket-Protocol: " ++ scrub (strBytes "superchat")]) ++
+      (if true then [strBytes "Sec-WebSocket-Extensions: permessage-deflate; server_no_context_takeover; client_no_context_takeover"] else []) ++
+      [[], []] :=
+  response101_lines witAccept (strBytes "superchat") true witAccept_noCR
+
+end NonVacuity
+
 end WS.Props.C12
